@@ -1,6 +1,7 @@
 import Ptn.C07.Core
 import Ptn.C06.Props
 import Ptn.C07.Gauge
+import Ptn.C07.Pair
 import Ptn.Common.AnalysisExp
 /-! Property theorems for C07, part 2 (Mathlib); the combinatorial theorems are in `Core.lean`. -/
 namespace Ptn.C07
@@ -193,6 +194,88 @@ example :
     subst hp; rfl
   exact ⟨by decide, by decide, by decide, by decide, (canonAtB_iff _ _ _).1 (by decide), h2, h4 hbd, by decide,
     h1, rfl, VRun.nil _⟩
+
+/-- **Before every two-site update `two a b` the doubled tree around the MERGED PAIR is canonical in index form and
+the norm network has the value of the two tensors of the pair alone** (builder B57).  Same run hypotheses as
+`two_site_update_kids_canon_partial` (only the per-split contracts of the run and the truth of the record of the
+initial network).  `r`: the tree re-rooted at `a`.  For every position of `b` among the children of `a` in `r`
+(`r.kids = k1 ++ node b kb :: k2`) the merged family `Ptn.Ein.pair_merged` - children of `a` other than `b`, then the
+children of `b` - satisfies `Kids.Canon`, has pairwise distinct labels, and the norm network equals the network of
+`T_a · T_b · conj T_a · conj T_b` summed over the shared bond and one common index per other leg of the pair
+(`Ptn.Ein.pair_centre_norm`): the norm of the merged two-site tensor.
+
+`_partial`: (1) that `b` IS a child of the root of `r` (it is: `Adj t a b` and `r` is `t` re-rooted at `a`) is not
+derived here, the statement is over every such decomposition of `r.kids`; (2) as in
+`two_site_update_kids_canon_partial`, `VStep.two` demands an exact factorisation over the fresh bond (truncating
+SVDs outside); (3) the instantiation of `two_site_update_conserves_norm_of_canonical` with this family
+(`Kids.IsConj`, complex scalars) is not done. -/
+theorem two_site_update_pair_canon_partial {R : Type} [CommSemiring R] (dim : Nat → Nat) (cj : R → R)
+    (t : RTree) (hwf : t.WF) (hk : t.kids ≠ []) :
+    ∃ u s evs, updatePath t = some u ∧ u.head? = some s ∧ eventsTwoSite t = some evs ∧
+      ∀ (dir : Rec) (N0 : VNet R), CanonAt t dir s → N0.WF → BondDims dim N0 → (∀ n ∈ ids t, n ∈ N0.ids) →
+        GaugeInv dim cj N0 dir →
+      ∀ (k : Nat) (p q : List DEv) (a b : Nat) (N : VNet R),
+        (List.replicate k evs).flatten = p ++ DEv.two a b :: q → VRun dim cj N0 p N →
+        Adj t a b ∧ N.WF ∧ N.ids = N0.ids ∧
+        ∃ r : RTree, reroot a [] t = some r ∧ r.rid = a ∧ (ids r).Perm (ids t) ∧
+          ∃ up dn : Nat → Nat, (∀ e ∈ edges r, EdgeOK dim cj N up dn e.1 e.2) ∧
+            ∀ k1 kb k2 : List RTree, r.kids = k1 ++ RTree.node b kb :: k2 →
+              (pair_merged (kidsOf cj N up dn k1) (kidsOf cj N up dn k2) (kidsOf cj N up dn kb)).Canon (ddim dim) ∧
+              (pair_merged (kidsOf cj N up dn k1) (kidsOf cj N up dn k2) (kidsOf cj N up dn kb)).labels.Nodup ∧
+              ∀ σ, netValue (ddim dim) (centreOf cj N up dn r).normBinds ((ids t).flatMap (nodeLeaves cj N)) σ =
+                netValue (ddim dim)
+                  ((physOf N a (dnLegs dn r.kids) ++ (physOf N b (up b :: dnLegs dn kb) ++
+                      [(DL.ket (dn b), DL.ket (up b)), (DL.bra (dn b), DL.bra (up b))])) ++
+                    (pair_merged (kidsOf cj N up dn k1) (kidsOf cj N up dn k2) (kidsOf cj N up dn kb)).pairs)
+                  [ketT (N.tens a), braT cj (N.tens a), ketT (N.tens b), braT cj (N.tens b)] σ := by
+  obtain ⟨u, s, evs, hu, hs, hev, hall⟩ :=
+    Ptn.C06.tdvp_event_centre_kids_canon dim cj t hwf .twoSite hk
+  refine ⟨u, s, evs, hu, hs, hev, ?_⟩
+  intro dir N0 hc hwf0 hbd hids hinv k p q a b N hsplit hr
+  obtain ⟨hpre, h1, h2, h3⟩ := hall dir N0 hc hwf0 hbd hids hinv k p q _ N hsplit hr
+  obtain ⟨hca, hab⟩ := gpre_pair (Or.inr (Or.inr (Or.inl rfl))) hpre
+  rw [hca] at h3
+  obtain ⟨r, hr1, hr2, hr3, up, dn, g1, g2, g3, g4, _, _⟩ := h3
+  refine ⟨hab, h1, h2, r, hr1, hr2, hr3, up, dn, g1, ?_⟩
+  intro k1 kb k2 hsp
+  have hK := kidsOf_split cj N up dn k1 k2 kb b
+  rw [← hsp] at hK
+  obtain ⟨hC, hCc, _⟩ := g3
+  simp only [centreOf, hr2] at hC hCc g4
+  rw [hK] at g2 hC hCc g4
+  obtain ⟨c1, c2⟩ := (pair_kids_append_canon_iff (ddim dim) _ _).1 g2
+  obtain ⟨_, _, cs, c3⟩ := c2
+  obtain ⟨hT, hTc, _, _, cb⟩ := cs
+  refine ⟨pair_merged_canon (ddim dim) _ _ _ c1 c3 cb, ?_, ?_⟩
+  · refine pair_merged_labels_nodup _ _ (DL.ket (dn b)) (DL.bra (dn b)) (ketT (N.tens b)) (braT cj (N.tens b))
+      (DL.ket (up b)) (DL.bra (up b)) (physOf N b (up b :: dnLegs dn kb)) _ ?_
+    simp only [Centre.labels] at g4
+    exact (List.nodup_append.1 g4).2.1
+  · intro σ
+    have hpc := pair_centre_norm (ddim dim) _ _ _ _ _ _ _ _ _ _ _ _ _ hC hCc hT hTc c1 c3 cb g4 σ
+    rw [← hpc]
+    have hL : (centreOf cj N up dn r).normLeaves = (ids r).flatMap (nodeLeaves cj N) :=
+      centreOf_normLeaves cj N up dn r
+    have hB : (centreOf cj N up dn r).normBinds = (Centre.mk (ketT (N.tens a)) (braT cj (N.tens a))
+        (physOf N a (dnLegs dn r.kids)) (pair_around (kidsOf cj N up dn k1) (kidsOf cj N up dn k2)
+          (DL.ket (dn b)) (DL.bra (dn b)) (ketT (N.tens b)) (braT cj (N.tens b)) (DL.ket (up b)) (DL.bra (up b))
+          (physOf N b (up b :: dnLegs dn kb)) (kidsOf cj N up dn kb))).normBinds := by
+      simp only [centreOf, Centre.normBinds, hr2, hK]
+    have hL' : (centreOf cj N up dn r).normLeaves = (Centre.mk (ketT (N.tens a)) (braT cj (N.tens a))
+        (physOf N a (dnLegs dn r.kids)) (pair_around (kidsOf cj N up dn k1) (kidsOf cj N up dn k2)
+          (DL.ket (dn b)) (DL.bra (dn b)) (ketT (N.tens b)) (braT cj (N.tens b)) (DL.ket (up b)) (DL.bra (up b))
+          (physOf N b (up b :: dnLegs dn kb)) (kidsOf cj N up dn kb))).normLeaves := by
+      simp only [centreOf, Centre.normLeaves, hr2, hK]
+    rw [← hB, ← hL', hL]
+    unfold netValue
+    apply sumPairs_congr
+    intro τ
+    exact Ptn.Ein.prodL_perm (((hr3.symm.flatMap_right (nodeLeaves cj N)).map _))
+
+/-- the hypotheses are satisfiable: the instance of the example above (tree `0 → 1`, first event `two 1 0`); the
+tree re-rooted at `1` is `1 → 0`, so `b = 0` is the only child: `k1 = k2 = kb = []` -/
+example : reroot 1 [] (RTree.node 0 [.node 1 []]) = some (.node 1 [.node 0 []]) ∧
+    (RTree.node 1 [.node 0 []]).kids = [] ++ RTree.node 0 [] :: [] := ⟨by rfl, by rfl⟩
 
 end siteCanon
 
